@@ -352,6 +352,11 @@ def add_worm_gear_mating(
         friction_coefficient > worm_gear.pressure_angle.cos() * \
         worm_gear.helix_angle.tan()
     slave.master_gear_efficiency = efficiency
+    worm_wheel = slave if isinstance(slave, WormWheel) else master
+    if worm_wheel.bending_stress_is_computable:
+        worm_wheel.time_variables.setdefault('bending stress', [])
+    else:
+        worm_wheel.time_variables.pop('bending stress', None)
 
 
 def add_fixed_joint(
